@@ -1,7 +1,8 @@
 """C01 - safe evaluator: confined to its allow-list, total, and resource-bounded.
 
 Case kinds:
- {"kind": "expr", "expr": text, "pathway": auto|math|logic|tool|transform, "tools": [name, ...], "silent": bool, "max_ros": x, "entry": metabolize|digest_glucose|agent}
+ {"kind": "expr", "expr": text, "pathway": auto|math|logic|tool|transform, "tools": [name, ...], "silent": bool, "max_ros": x, "entry": metabolize|digest_glucose|agent,
+  "pre": [pathway, ...]}   (pre: the same text is first evaluated on these pathways by fresh engines)
  {"kind": "table"}                                   audit of the live function / operator tables
  {"kind": "bomb", "expr": text, "pathway": ..., "timeout": t, "tools": [...]}     evaluated in a sandboxed child with a CPU budget
 Expressions come from (a) ASTs built from every class in ast.expr.__subclasses__() of the running interpreter, (b) raw text,
@@ -65,7 +66,7 @@ def _vetted():
 
 _LEAF = st.one_of(
     st.integers(-3, 9).map(repr), st.sampled_from(["0.5", "2.0", "True", "False", "None", "'s'", "'a.b'", "b'x'", "...", "1j"]),
-    st.sampled_from(NAMES), st.sampled_from(["pi", "e", "sqrt", "abs", "max", "x", "__import__", "eval", "getattr", "open", "lookup"]),
+    st.sampled_from(NAMES), st.sampled_from(["pi", "e", "sqrt", "abs", "max", "x", "__import__", "eval", "getattr", "open", "lookup", "true", "false", "true", "5"]),
 )
 
 
@@ -185,6 +186,8 @@ def strategy(tier):
         "silent": st.sampled_from([True, True, False]),
         "max_ros": st.sampled_from([1000.0, 1000.0, 0.3]),
         "entry": st.sampled_from(["metabolize"] * 8 + ["digest_glucose", "agent"]),
+        # the same text evaluated on other pathways first (fresh engines, same process): state must not leak between evaluations
+        "pre": st.sampled_from([[], [], [], ["logic"], ["logic"], ["math"], ["tool"], ["transform"], ["logic", "math"], ["auto", "logic"]]),
     })
     return expr_case
 
@@ -231,6 +234,10 @@ def enumerate_cases(tier):
     for ex in ("(max if 1 else min)(1, 2)", "(abs or max)(-1)", "(1 and sqrt)(4)", "(0 or len)('ab')", "(lookup if 1 else max)(1)"):
         for pw in ("auto", "math", "logic", "tool"):
             yield dict(base, expr=ex, pathway=pw)
+    for ex in ("true * 5", "false + 1", "max(true, 2)", "lookup(true, false)", "(true)", "not true", "true and 3", "[true, 1]", "1 if true else 2", "True * 5", "sqrt(true + 3)"):
+        for pre in ([], ["logic"], ["logic", "logic"], ["auto"], ["math", "logic"]):
+            for pw in ("auto", "math", "tool", "logic"):
+                yield dict(base, expr=ex, pathway=pw, pre=pre)
     for name in sorted(set(dir(builtins)) | {"__import__"}):
         yield dict(base, expr="%s(1)" % name, pathway="math")
         yield dict(base, expr="%s('1')" % name, pathway="logic")
@@ -457,6 +464,22 @@ def _judge_expr(case):
     result_success = None
     value = None
     used = None
+    pwmap = {"auto": None, "math": MetabolicPathway.GLYCOLYSIS, "logic": MetabolicPathway.KREBS_CYCLE, "tool": MetabolicPathway.OXIDATIVE,
+             "transform": MetabolicPathway.BETA_OXIDATION}
+    for k, prepw in enumerate(case.get("pre", [])):
+        try:
+            pm = Mitochondria(silent=True, max_ros=1000.0)
+            for t in tools:
+                pm.register_function(t, _tool_body(t), "tool")
+            pm.metabolize(expr, pwmap[prepw])
+        except (HarnessError, KeyboardInterrupt):
+            raise
+        except BaseException as e:
+            out.nontrivial = True
+            out.fail("raise:%s:pre-evaluation" % type(e).__name__, "metabolize raised %s on pathway %s" % (type(e).__name__, prepw), d)
+            return out
+    if case.get("pre"):
+        out.label("pre-evaluated")
     _arm()
     try:
         try:
